@@ -706,7 +706,7 @@ class PtychographyBase(RNGMixin, AutoSerialize):
     @property
     def obj_shape_crop(self) -> np.ndarray:
         """All object shapes are 3D"""
-        shp = np.floor(self.dset.fov / self.sampling)
+        shp = np.floor(self.dset.fov / self.sampling) + 2  # see dset._obj_shape_crop_2d
         shp += shp % 2
         shp = np.concatenate([[self.num_slices], shp])
         return shp.astype("int")
